@@ -33,6 +33,12 @@ FIXED += [
     ("D8", ["C19", "C12"], "fix: value.Equal accepts a nil second operand for double values", "equal-nil-double",
      "value.Equal(double_val, nil) dereferenced a nil pointer (b.Value instead of b.GetValue())"),
 ]
+FIXED += [
+    ("D18", ["C08"], "fix: a blocked sync_response is subject to the subscribe send timeout", "sync-send-without-timeout",
+     "a subscriber that stops reading when the sync_response is due (first response of an updates_only subscription) was never timed out"),
+    ("D19", ["C18"], "fix: reconnecting client honours RetryBaseDelay/RetryMaxDelay from the first retry", "first-backoff-ignores-retry-delays",
+     "client.Reconnect never reset the backoff after configuring it: with RetryBaseDelay=RetryMaxDelay=2ms, Close right after the first stream failure returned after 500ms"),
+]
 OPEN = [
     dict(id="D15", properties=["C19"], status="open", **{"class": "query-elem-edge-slash"}, part="query",
          what="a client query whose last element ends with '/' loses that element on the way to the server (e.g. [\"/\"] is indexed as []): ygot's string path parser drops the last part of a string ending in '/', even the escaped one pathToString produces; no small safe repair (the string round trip is what parses [k=v] keys)",
